@@ -48,6 +48,7 @@ type SrvOpt struct {
 	Patterns     []string // one per certificate (Ident first, then Extra) when Extra is used
 	MaxPending   int
 	MaxBuffered  int
+	RawLeaf      *[]byte // hostile server: these bytes are presented as the leaf certificate
 }
 
 // NewServer starts a real server.
@@ -60,6 +61,16 @@ func (w *World) NewServer(addr *net.UDPAddr, o SrvOpt) *Srv {
 	}
 	if len(o.Extra) > 0 {
 		cfg.GetCertificate, cfg.GetCertList = vhostCallbacks(o)
+	}
+	if o.RawLeaf != nil {
+		tc, err := transport.MakeCert(o.Ident.Key, o.Ident.Leaf, o.Ident.Inter, o.KEM)
+		must(err)
+		tc.RawLeaf = *o.RawLeaf
+		for _, b := range o.Ident.Leaf.IDChunk.Blocks {
+			tc.HostNames = append(tc.HostNames, b.String())
+		}
+		cfg.GetCertificate = func(transport.ClientHandshakeInfo) (*transport.Certificate, error) { return tc, nil }
+		cfg.GetCertList = func() ([]*transport.Certificate, error) { return []*transport.Certificate{tc}, nil }
 	}
 	t, err := transport.NewServer(ep, cfg)
 	must(err)
